@@ -93,7 +93,8 @@ def fieldsLine (fs : List (Nat × Bytes)) : Bytes :=
 /-- blanks that `%<w>…` puts in front of a rendered number -/
 def padTo (w : Nat) (t : Bytes) : Nat := w - t.length
 
-def lit (s : String) : Bytes := ofString s
+/-- an ASCII literal as bytes -/
+def lit (s : String) : Bytes := s.toList.map Char.toNat
 
 /-- fields of one line of net/tcp, net/tcp6 (`tcp = true`) or net/udp, net/udp6 -/
 def inetFields (le : Bool) (tcp : Bool) (sl : Nat) (s : Sock) : List (Nat × Bytes) :=
